@@ -40,6 +40,12 @@ class LocalizedError(TypedDict):
     err: ErrorMsg
 
 
+def _error_key_order(key: Any) -> Tuple[int, int, str]:
+    # Keys of one error can be of several types when invalid data has non-string keys:
+    # indices come first, in numeric order, then the other keys ordered by their string
+    return (0, key, "") if isinstance(key, int) else (1, 0, str(key))
+
+
 class ValidationError(Exception):
     @overload
     def __init__(self, __message: str):
@@ -69,7 +75,7 @@ class ValidationError(Exception):
     def _errors(self) -> Iterator[Tuple[List[ErrorKey], ErrorMsg]]:
         for msg in self.messages:
             yield [], msg
-        for child_key in sorted(self.children):
+        for child_key in sorted(self.children, key=_error_key_order):
             for path, error in self.children[child_key]._errors():
                 yield [child_key, *path], error
 
